@@ -280,14 +280,22 @@ void runS5(Ctx &ctx, const QString &caseId, const QJsonObject &beh, int idx)
     b->addExtension(mb);
     QPointer<QXmppTransferJob> sJob, rJob;
     int rFin = 0, sFin = 0;
+    const QString acceptHow = beh["accept"].toString("device"), destPath = beh["dest"].toString();
+    if (acceptHow != "device") {
+        prepareDestination(acceptHow, destPath, size, seed);
+    }
     QObject::connect(mb, &QXmppTransferManager::fileReceived, mb, [&](QXmppTransferJob *job) {
         if (rJob) {
             return;
         }
         rJob = job;
         QObject::connect(job, &QXmppTransferJob::finished, job, [&]() { ++rFin; });
-        recvBuf.open(QIODevice::WriteOnly);
-        job->accept(&recvBuf);
+        if (acceptHow == "device") {
+            recvBuf.open(QIODevice::WriteOnly);
+            job->accept(&recvBuf);
+        } else {
+            job->accept(destPath);
+        }
     });
 
     sendBuf.setData(file);
@@ -429,7 +437,7 @@ void runS5(Ctx &ctx, const QString &caseId, const QJsonObject &beh, int idx)
         QCoreApplication::processEvents();
     }
 
-    const auto got = recvBuf.data();
+    const auto got = acceptHow == "device" ? recvBuf.data() : readDestination(rJob.data(), destPath);
     QJsonObject o {
         { "rs", rJob ? stateName(rJob->state()) : QStringLiteral("None") },
         { "re", rJob ? errorName(rJob->error()) : QStringLiteral("NoError") },
@@ -447,6 +455,7 @@ void runS5(Ctx &ctx, const QString &caseId, const QJsonObject &beh, int idx)
         { "ann", ann },
         { "dev", dev },
         { "devbad", recvBuf.misbehaved },
+        { "accept", acceptHow },
         { "k", proxy.fault.k },
         { "fwd", double(proxy.forwarded) },
         { "seen", double(proxy.seen) },
